@@ -858,9 +858,10 @@ def gen_cfg(rng, thorough, strategy=None):
                 cfg["ctor"] = {}
                 cfg["version"] = rng.choice([1, 2, 3])
     if cfg.get("ctor") == {"split_single_dim": True} and cfg.get("grid") in ("gauss_legendre", "clenshaw_curtis"):
-        # clean tree, reported to the lead: with split_single_dim=True initialize_refinement() evaluates the integrand on twin/parent areas
-        # BEFORE operation.initialize() empties the point counter -- on grids whose points are not nested these evaluations are never
-        # counted (ClenshawCurtisGrid: 25 reported, 27 performed) or an assertion of the twin-error code fails (GaussLegendreGrid)
+        # split_single_dim=True on grids whose points are not nested: after a few refinements `assert i == 2 ** self.dim or i == 2`
+        # (get_sum_sibling_value) or an assertion of the twin-error code fails on the clean tree (recorded in handoff/C13.md; outside
+        # C13).  The START of such runs is generated on purpose by the family "ssd_cc" in run(): the twin / parent areas that
+        # initialize_refinement() evaluates are distinct integrand evaluations of the run and must be counted.
         cfg["grid"] = "trapezoidal"
     if cfg.get("ctor") == {"chebyshev_points": True} and cfg.get("box"):
         # clean tree: RefinementObjectSingleDimension.map_chebyshev normalises the already normalised angle with a and b again and
@@ -957,7 +958,16 @@ def run(ctx):
         if ctx.time_left(budget) < 0:
             break
         cfg = gen_cfg(ctx.rng, thorough)
+        if k < 2:
+            # always present: split_single_dim=True on the Clenshaw-Curtis grid -- initialize_refinement() evaluates twin / parent
+            # areas whose points are in no later grid; they are distinct integrand evaluations of the run and must be counted
+            while not (cfg["strategy"] == "extend_split" and cfg["dim"] == 2):
+                cfg = gen_cfg(ctx.rng, thorough, strategy="extend_split")
+            cfg.update(grid="clenshaw_curtis", ctor={"split_single_dim": True}, lmax=2, version=0, test_scheme=False, family="ssd_cc")
+            ctx.count("family_split_single_dim_clenshaw_curtis")
         cap = ctx.rng.choice([60, 90, 130, 180] if cfg["dim"] == 2 else [120, 200, 300])
+        if cfg.get("family") == "ssd_cc":
+            cap = 1           # the first evaluation only; the assertion-prone refinements of this option x grid are not entered
         if cfg.get("grid") == "gauss_legendre":
             cap = ctx.rng.choice([350, 600, 900])      # 80 points at the first evaluation, several hundred per refinement
         scout_limits = {"tol": -1.0, "min": 1, "max": cap}
@@ -979,6 +989,11 @@ def run(ctx):
             if parse_stop(drv.ask("run %s %s" % (lim_str(L), stream_str(stream)))) is None:
                 L = dict(L, max=stream[-1][1] - 1)
                 ctx.count("limits_capped")
+            if cfg.get("family") == "ssd_cc":
+                L = dict(L, max=min(stream[-1][1] - 1, L["max"] if L["max"] is not None else 10 ** 9))
+                ok2, s2 = check_run(ctx, drv, cfg, L, scout_stream=stream)
+                ctx.case({"cfg": cfg, "limits": L}, nontrivial=True)
+                continue
             # object history: in 40 % of the runs the operation / Function / strategy object has already driven a complete
             # run with other limits; the run under test must behave (and count) exactly like a fresh one
             prior = None
